@@ -52,7 +52,7 @@ def build_equilibrium(cfg):
             wall = wall[::-1]
         eq, arrays = E.make_tokamak(cfg["geometry"], opts, fpol=fpol_func(cfg.get("fpol")), pressure=pressure_func(cfg.get("pressure")),
                                     wall=wall, mirror=cfg.get("mirror", False), psi_sign=cfg.get("psi_sign", 1.0),
-                                    nR=cfg.get("nR", 65), nZ=cfg.get("nZ", 65), psi1d_rmax=cfg.get("psi1d_rmax"))
+                                    nR=cfg.get("nR", 65), nZ=cfg.get("nZ", 65), psi1d_rmax=cfg.get("psi1d_rmax"), psi_scale=cfg.get("psi_scale", 1.0))
         return eq, opts, arrays
     raise ValueError("unknown family %r" % fam)
 
